@@ -129,4 +129,20 @@ class Documented:
 	n: int = 0
 """
 
-ALL = {'shape_generic': GENERIC, 'shape_pairs': PAIRS, 'shape_flow': FLOW, 'shape_doconly': DOCONLY, 'shape_docfirst': DOCFIRST}
+VARS = '''registry: dict[str, list[int]] = {}
+boxed: list[dict[str, int]] = []
+plain: str = 'p'
+'''
+
+USES = '''from shape_vars import registry, boxed, plain
+
+def use_vars(n: int) -> int:
+	registry['a'] = [n]
+	boxed.append({'k': n})
+	return len(registry) + len(boxed) + len(plain)
+'''
+
+# the text ends inside an indented block, the last line holds only indentation (no final line break)
+OPENBLOCK = 'def open_block() -> None:\n\tpass\n\t'
+
+ALL = {'shape_vars': VARS, 'shape_uses': USES, 'shape_openblock': OPENBLOCK, 'shape_generic': GENERIC, 'shape_pairs': PAIRS, 'shape_flow': FLOW, 'shape_doconly': DOCONLY, 'shape_docfirst': DOCFIRST}
